@@ -410,6 +410,24 @@ def _gen_parsers():
             rows.append("  ([%s], (%d : Int))" % (", ".join(lean_chars(a) for a in alts), us.numerator))
         body += "/-- `units` of parse_duration: spellings (lower case; matching ignores case), microseconds -/\n"
         body += "def durationUnits : List (List Py.Str × Int) := [\n" + ",\n".join(rows) + "]\n\n"
+        # the same table with the multipliers AS PYTHON HOLDS THEM: an int number of seconds, or a float literal
+        # (given as decimal mantissa and exponent: the double is the one nearest to it)
+        import decimal as _dec
+        frows = []
+        for e in units.elts:
+            alts = expand_alternatives(const_str(e.elts[0]))
+            v = e.elts[1].value
+            if isinstance(v, bool) or not isinstance(v, (int, float)) or v <= 0:
+                raise Unsupported("unit multiplier %r" % (v,))
+            if isinstance(v, int):
+                isf, mant, ex = "false", v, 0
+            else:
+                sign, digits, ex = _dec.Decimal(repr(v)).as_tuple()
+                isf, mant = "true", int("".join(str(d) for d in digits))
+            frows.append("  ([%s], %s, %d, (%d : Int))" % (", ".join(lean_chars(a) for a in alts), isf, mant, ex))
+        body += "/-- `units` of parse_duration with the multipliers as the source has them: (spellings, is a float literal, "
+        body += "decimal mantissa, decimal exponent) – seconds -/\n"
+        body += "def durationUnitsF : List (List Py.Str × Bool × Nat × Int) := [\n" + ",\n".join(frows) + "]\n\n"
 
         # ---- parse_day
         pdy = find_func(sp, "parse_day")
@@ -832,10 +850,34 @@ def _gen_sink():
         # ---- _ctime_functions.py: where the creation time of a file comes from
         ct, _ = parse_module("_ctime_functions.py")
         load = find_func(ct, "load_ctime_functions")
-        tests = [ast.unparse(st.test) for st in load.body if isinstance(st, ast.If)]
-        if tests != ["os.name == 'nt'", "hasattr(os.stat_result, 'st_birthtime')",
-                     "hasattr(os, 'getxattr') and hasattr(os, 'setxattr')"]:
-            raise Unsupported("platform dispatch of load_ctime_functions changed: %r" % (tests,))
+        # the platform dispatch: a chain of `if <feature test>: … return get_ctime_X, set_ctime_X`, then the fallback pair
+        ATOMS = {"os.name == 'nt'": "isNt", "hasattr(os.stat_result, 'st_birthtime')": "hasBirthtime",
+                 "hasattr(os, 'getxattr') and hasattr(os, 'setxattr')": "hasXattr",
+                 "hasattr(os, 'setxattr') and hasattr(os, 'getxattr')": "hasXattr"}
+        CODES = {"windows": 0, "macos": 1, "linux": 2, "fallback": 3}
+
+        def returned_pair(stmts):
+            rets = [x for x in stmts if isinstance(x, ast.Return)]
+            if len(rets) != 1 or not isinstance(rets[0].value, ast.Tuple) or len(rets[0].value.elts) != 2:
+                raise Unsupported("load_ctime_functions: a branch does not return (getter, setter)")
+            g, s_ = [ast.unparse(e) for e in rets[0].value.elts]
+            if not (g.startswith("get_ctime_") and s_ == "set_ctime_" + g[10:] and g[10:] in CODES):
+                raise Unsupported("load_ctime_functions returns %s, %s" % (g, s_))
+            return CODES[g[10:]]
+
+        chain = []
+        for st in load.body:
+            if isinstance(st, ast.If):
+                atom = ATOMS.get(ast.unparse(st.test))
+                if atom is None or st.orelse:
+                    raise Unsupported("platform test of load_ctime_functions: " + ast.unparse(st.test)[:80])
+                chain.append((atom, returned_pair(st.body)))
+        final = returned_pair(load.body)
+        dispatch = str(final)
+        for atom, code in reversed(chain):
+            dispatch = "if %s then %d else %s" % (atom, code, dispatch)
+        body += "/-- `load_ctime_functions`: which pair of functions is installed (0 windows, 1 macos, 2 linux xattr, 3 fallback) -/\n"
+        body += "def ctimeDispatch (isNt hasBirthtime hasXattr : Bool) : Nat := %s\n" % dispatch
 
         def stat_field(fn_name):
             """the `st_*` field a getter returns from os.stat(filepath) (last return of the function)"""
